@@ -715,6 +715,13 @@ func (l *lexer) readHeredocs() bool {
 	find := func(r *ast.Redir, delim string) bool {
 		for i := len(l.word) - 1; i >= 0; i-- {
 			if l.word[i].Pos().Col() == 1 {
+				// a line which continues the preceding one is not the
+				// beginning of a line
+				if i > 0 {
+					if w, ok := l.word[i-1].(*ast.Lit); !ok || !strings.HasSuffix(w.Value, "\n") {
+						continue
+					}
+				}
 				if s := l.print(l.word[i:]); strings.ContainsRune(s, '\n') {
 					break
 				} else if s == delim || r.Op == "<<-" && strings.TrimLeft(s, "\t") == delim {
